@@ -262,10 +262,11 @@ def py_monitor(case, impl):
     return bad
 
 
-def run(ctx, harness, n):
+def run(ctx, harness, n, cases=None):
     rnd = random.Random(ctx.seed + 13)
     uniq = [0x100000]
-    cases = directed() + [gen_scenario(rnd, uniq) for _ in range(n)]
+    if cases is None:
+        cases = directed() + [gen_scenario(rnd, uniq) for _ in range(n)]
     res, log = common.run_harness(ctx, harness, "release", cases, timeout=300 if ctx.tier == "quick" else 1200)
     if res is None:
         return {"error": "release harness run failed: " + log[-1200:], "cases": cases}
